@@ -381,7 +381,14 @@ def compare(ops, impl, model):
     """indices of op lines whose results differ (model '?' = no prediction)"""
     bad = []
     n = min(len(impl), len(model))
+    na = False   # the harness answered `n/a`: this recorded case names a tunable value the current build does not have
     for i in range(n):
+        if i < len(ops) and ops[i].startswith('case '):
+            na = False
+        if impl[i] == 'n/a':
+            na = True
+        if na:
+            continue
         if impl[i] != model[i] and model[i] != '?' and impl[i] != 'CRASH':
             bad.append(i)
     if len(impl) != len(model):
